@@ -162,6 +162,17 @@ def search(ctx):
                 ctx.violation("C18:bg-self", "image divided by itself is not exactly 1", dict(kind="bg", **info))
             if not _attrs_kept(im, h):
                 ctx.violation("C18:bg-metadata", "bg_correct lost metadata", dict(kind="bg", **info))
+            # the background and the dark image carry THEIR OWN metadata (another noise estimate, as load_average gives one,
+            # other optics): the result keeps the image's
+            other = dict(medium_index=1.0 + 0.1 * (i % 4), illum_wavelen=0.405 + 0.05 * (i % 3), illum_polarization=(0, 1),
+                         noise_sd=[0.01, 0.2, None][i % 3])
+            bg2 = data_grid(bga, spacing=(0.1, 0.25), **other)
+            df2 = data_grid(df.values, spacing=(0.1, 0.25), **dict(other, noise_sd=0.3))
+            for h2, whatbg in ((bg_correct(im, bg2), "background"), (bg_correct(im, bg2, df2), "background and dark image")):
+                if not _attrs_kept(im, h2):
+                    ctx.violation("C18:bg-metadata:other", "bg_correct with a %s carrying other metadata (noise_sd %r) does not keep the image's: noise_sd %r -> %r, medium_index %r -> %r" % (
+                        whatbg, other["noise_sd"], im.attrs.get("noise_sd"), h2.attrs.get("noise_sd"), im.attrs.get("medium_index"), h2.attrs.get("medium_index")),
+                        dict(kind="bg-other-metadata", other={k: (list(v) if isinstance(v, tuple) else v) for k, v in other.items()}, **info))
             # images as a camera or a hand-made array delivers them: integer counts (signed, unsigned) and single precision
             if kind == "int" and nx >= 3 and ny >= 3:
                 dt = [np.int32, np.uint8, np.uint16, np.int64, np.float32, np.int16][(i // 3) % 6]
